@@ -1,7 +1,7 @@
 -------------------------- MODULE GridWeightsTrace --------------------------
 (* code -> spec: recorded Catchment.intersect / voronoi results on random fine
    grids (up to 12x12), delineated catchments, random coarser grids and point
-   sets; counts are weights * rho^2 (intersect) or weights * ncells (voronoi),
+   sets; counts are weights * (cs/4)^2 (intersect) or weights * ncells (voronoi),
    logged as integers (token -7777 when not integral). *)
 EXTENDS GridWeights, Json, IOUtils
 TLog == ndJsonDeserialize(IOEnv.TRACE_FILE)
@@ -18,8 +18,8 @@ Accept(t) == LET r == TLog[t] S == ToSet(r.cells) IN
                  LET row == r.out_cells[k] \div r.g.cc  col == r.out_cells[k] % r.g.cc
                  IN r.ag.data[row - r.ag.row_start + 1][col - r.ag.col_start + 1] = r.out_counts[k]
             /\ SumSeq([i \in 1..Len(r.ag.data) |-> SumSeq(r.ag.data[i])]) = SumSeq(r.out_counts)
-            /\ r.ag.xll = r.g.ox + 4 * r.g.rho * r.ag.col_start
-            /\ r.ag.yll = r.g.oy + 4 * r.g.rho * (r.g.rc - 1 - r.ag.row_end))
+            /\ r.ag.xll = r.g.ox + r.g.cs * r.ag.col_start
+            /\ r.ag.yll = r.g.oy + r.g.cs * (r.g.rc - 1 - r.ag.row_end))
    ELSE
       /\ Clause(t, "voronoi-nearest-point-fractions", r.counts = VoronoiDef(r.fr, r.fc, S, r.pts))
       /\ Clause(t, "voronoi-sum-to-one", SumSeq(r.counts) = Cardinality(S))
